@@ -12,7 +12,22 @@ import OSq.Model.Passes
   * `merge_error_only_from_compose`  with in-range operands the pass raises only if a same-qubit `composeRot` fails.
   * `merge_no_error`, `merge_barriers`  in-range operands + `ComposeTotal` ⇒ no exception, statements as above.
   * `merge_emits_only_bsr`  every output statement is an input statement or a plain rotation.
-  (continued below as the file grows)
+  * `mergeLoop_trace`       loop invariant: for every qubit, what the rest of the run appends to the qubit's trace is
+                            `specTrace` of the pending accumulator and the remaining trace.
+  * `merge_per_qubit_order` (no exception, `I(q)` tests as identity) for every qubit `q` of the register
+                            `trace q output = specTrace atol q (I q) (trace q input)`, where `specTrace` is the
+                            one-accumulator specification: rotations are absorbed by `acc := composeRot rot acc`,
+                            a barrier emits the accumulator in front of itself and resets it unless it tests as
+                            identity (then: neither emitted nor reset), the end emits it (through `tryName`).
+  * `merge_trace_barriers`  the barrier statements of a qubit's trace are unchanged (unconditional).
+  * `specTrace_segment`, `specTrace_last_segment`  segment form: a run of rotations between two barriers is replaced
+                            by at most one rotation, the left fold `foldRot` of `composeRot` over the run.
+  * `merge_emitted_nonidentity`  every rotation of the output is an accumulator produced by `composeRot` that did
+                            not test as identity (possibly renamed by `tryName` in the final flush).
+  * `merge_normal_form`     (C14) no two rotations adjacent in any qubit's trace; no output rotation tests identity
+                            (the latter under `RenameKeepsNonIdentity`, see there).
+  Non-vacuity: section `Toy` instantiates every theorem on a concrete 7-statement circuit over a computable toy
+  scalar for which all hypotheses are proved.
 -/
 set_option linter.unusedSectionVars false
 namespace OSq
@@ -422,6 +437,652 @@ theorem merge_barriers (atol : α) (c : Circuit α) (hr : OperandsInRange c.nQub
     (merge atol c).1.nQubits = c.nQubits ∧ (merge atol c).1.nBits = c.nBits :=
   ⟨merge_no_error atol c hr hcomp, merge_filter atol c, merge_registers atol c⟩
 
+/-! ### Per-qubit traces -/
+
+/-- the statement acts on qubit `q` -/
+def Stmt.touches (q : Int) (s : Stmt α) : Bool := decide (q ∈ s.qubits)
+
+/-- the statements touching `q`, in program order -/
+def trace (q : Int) (l : List (Stmt α)) : List (Stmt α) := l.filter (Stmt.touches q)
+
+theorem trace_append (q : Int) (l₁ l₂ : List (Stmt α)) : trace q (l₁ ++ l₂) = trace q l₁ ++ trace q l₂ :=
+  List.filter_append ..
+
+theorem trace_reverse (q : Int) (l : List (Stmt α)) : trace q l.reverse = (trace q l).reverse :=
+  List.filter_reverse ..
+
+theorem trace_cons_pos (q : Int) (s : Stmt α) (l : List (Stmt α)) (h : q ∈ s.qubits) :
+    trace q (s :: l) = s :: trace q l := by
+  simp [trace, Stmt.touches, h]
+
+theorem trace_cons_neg (q : Int) (s : Stmt α) (l : List (Stmt α)) (h : q ∉ s.qubits) :
+    trace q (s :: l) = trace q l := by
+  simp [trace, Stmt.touches, h]
+
+/-- what the final loop over the accumulators emits for a non-identity accumulator -/
+def finalRot (atol : α) (r : Rot α) : Rot α := if r.nm.isNone then tryName atol r else r
+
+theorem tryName_go_q (atol : α) (r : Rot α) (cl : α → α → Bool) (ns : List String) :
+    (tryName.go atol r cl ns).q = r.q := by
+  induction ns with
+  | nil => simp [tryName.go]
+  | cons n ns ih =>
+    simp only [tryName.go]
+    split
+    · split
+      · rfl
+      · exact ih
+    · exact ih
+
+theorem tryName_q (atol : α) (r : Rot α) : (tryName atol r).q = r.q := tryName_go_q atol r _ _
+
+theorem finalRot_q (atol : α) (r : Rot α) : (finalRot atol r).q = r.q := by
+  unfold finalRot; split
+  · exact tryName_q atol r
+  · rfl
+
+/-- the function mapped over the accumulators by the final flush -/
+def tailF (atol : α) (r : Rot α) : Option (Stmt α) :=
+  if r.isIdentity atol then none else some (finalRot atol r).toGStmt.toStmt
+
+theorem mergeTail_eq (atol : α) (accs : Array (Rot α)) :
+    mergeTail atol accs = accs.toList.filterMap (tailF atol) := rfl
+
+/-- the trace of `q` in the final flush: only the accumulator stored at index `q` contributes -/
+theorem trace_tail_aux (atol : α) (q : Nat) (l : List (Rot α)) : ∀ (off : Nat),
+    (∀ i r, l[i]? = some r → r.q = ((off + i : Nat) : Int)) →
+    trace (q : Int) (l.filterMap (tailF atol))
+      = if off ≤ q then
+          match l[q - off]? with
+          | some acc => if acc.isIdentity atol then [] else [(finalRot atol acc).toGStmt.toStmt]
+          | none => []
+        else [] := by
+  induction l with
+  | nil => intro off _; simp [trace]
+  | cons r l ih =>
+    intro off h
+    have hr : r.q = ((off : Nat) : Int) := by simpa using h 0 r (by simp)
+    have ih := ih (off + 1) (fun i r' hi => by
+      have := h (i + 1) r' (by simpa using hi)
+      rw [this]; congr 1; omega)
+    have hcons : trace (q : Int) ((r :: l).filterMap (tailF atol)) =
+        (if r.isIdentity atol then [] else trace (q : Int) [(finalRot atol r).toGStmt.toStmt])
+          ++ trace (q : Int) (l.filterMap (tailF atol)) := by
+      cases hid : r.isIdentity atol with
+      | true => simp [tailF, hid, trace]
+      | false =>
+        simp only [List.filterMap_cons, tailF, hid, Bool.false_eq_true, ↓reduceIte]
+        exact trace_append _ [_] _
+    rw [hcons, ih]
+    by_cases hoq : off = q
+    · subst hoq
+      have : ¬ (off + 1 ≤ off) := by omega
+      rw [if_neg this, trace_cons_pos _ _ _ (by simp [Rot.toStmt_qubits, finalRot_q, hr])]
+      simp [trace]
+    · have hnt : trace (q : Int) [(finalRot atol r).toGStmt.toStmt] = [] := by
+        rw [trace_cons_neg]; · rfl
+        simp only [Rot.toStmt_qubits, finalRot_q, hr, List.mem_singleton]
+        omega
+      rw [hnt]
+      by_cases hle : off ≤ q
+      · have h1 : off + 1 ≤ q := by omega
+        have h2 : q - off = (q - (off + 1)) + 1 := by omega
+        rw [if_pos hle, if_pos h1, h2, List.getElem?_cons_succ]; simp
+      · have h1 : ¬ (off + 1 ≤ q) := by omega
+        rw [if_neg hle, if_neg h1]; simp
+
+theorem trace_tail (atol : α) (q : Nat) (accs : Array (Rot α)) (acc : Rot α) (hok : AccOK accs)
+    (hacc : accs[q]? = some acc) :
+    trace (q : Int) (mergeTail atol accs)
+      = if acc.isIdentity atol then [] else [(finalRot atol acc).toGStmt.toStmt] := by
+  rw [mergeTail_eq, trace_tail_aux atol q accs.toList 0 (fun i r hi => by
+    simp only [Nat.zero_add]; exact hok i r (by simpa using hi))]
+  simp [hacc]
+
+/-- `I(q)` tests as identity (true at `ℝ` for `0 < atol < π`, at `Float` for `ATOL = 1e-7`): needed so that a
+    statement naming the same qubit twice does not flush a fresh accumulator a second time. -/
+def DefaultIsIdentity (atol : α) : Prop := ∀ q : Nat, (defaultI atol q).isIdentity atol = true
+
+theorem getElem?_set!_self (accs : Array (Rot α)) (i : Nat) (r : Rot α) (h : i < accs.size) :
+    (accs.set! i r)[i]? = some r := by
+  simp [h]
+
+theorem getElem?_set!_ne (accs : Array (Rot α)) (i j : Nat) (r : Rot α) (h : i ≠ j) :
+    (accs.set! i r)[j]? = accs[j]? := by
+  simp [h]
+
+/-- effect of a flush on the trace and the accumulator of one qubit `q` -/
+theorem flushOps_trace (atol : α) (hdef : DefaultIsIdentity atol) (q : Nat) (qs : List Int) :
+    ∀ (accs : Array (Rot α)) (out : List (Stmt α)) (accs' : Array (Rot α)) (out' : List (Stmt α)) (acc : Rot α),
+      AccOK accs → accs[q]? = some acc → flushOps atol accs out qs = .ok (accs', out') →
+      AccOK accs' ∧ accs'.size = accs.size ∧
+      (if (q : Int) ∈ qs ∧ acc.isIdentity atol = false
+        then accs'[q]? = some (defaultI atol q) ∧ trace (q : Int) out' = acc.toGStmt.toStmt :: trace (q : Int) out
+        else accs'[q]? = some acc ∧ trace (q : Int) out' = trace (q : Int) out) := by
+  induction qs with
+  | nil =>
+    intro accs out accs' out' acc hok hacc h
+    rw [flushOps_nil] at h
+    injection h with h; injection h with h1 h2
+    subst h1; subst h2
+    exact ⟨hok, rfl, by simp [hacc]⟩
+  | cons q0 qs ih =>
+    intro accs out accs' out' acc hok hacc h
+    cases hq0 : accGet? accs q0 with
+    | none => rw [flushOps_cons_key atol accs out q0 qs hq0] at h; cases h
+    | some r0 =>
+      obtain ⟨hq0nn, hget0⟩ := accGet?_some accs q0 r0 hq0
+      have hr0q : r0.q = q0 := by rw [hok _ _ hget0]; omega
+      cases hid : r0.isIdentity atol with
+      | true =>
+        rw [flushOps_cons_id atol accs out q0 qs r0 hq0 hid] at h
+        obtain ⟨h1, h2, h3⟩ := ih accs out accs' out' acc hok hacc h
+        refine ⟨h1, h2, ?_⟩
+        by_cases he : q0 = (q : Int)
+        · have : r0 = acc := by
+            have : q0.toNat = q := by omega
+            rw [this, hacc] at hget0; injection hget0 with h; exact h.symm
+          subst this
+          have c1 : ¬ ((q : Int) ∈ q0 :: qs ∧ r0.isIdentity atol = false) := by simp [hid]
+          have c2 : ¬ ((q : Int) ∈ qs ∧ r0.isIdentity atol = false) := by simp [hid]
+          rw [if_neg c1]; rw [if_neg c2] at h3; exact h3
+        · have : ((q : Int) ∈ q0 :: qs) ↔ ((q : Int) ∈ qs) := by
+            simp only [List.mem_cons]; constructor
+            · rintro (h | h); · exact absurd h.symm he
+              exact h
+            · exact Or.inr
+          simpa only [this] using h3
+      | false =>
+        rw [flushOps_cons_emit atol accs out q0 qs r0 hq0 hid] at h
+        have hok1 : AccOK (accs.set! q0.toNat (defaultI atol q0.toNat)) := hok.set _ _ (defaultI_q atol _)
+        by_cases he : q0 = (q : Int)
+        · have hqn : q0.toNat = q := by omega
+          have hr : r0 = acc := by
+            rw [hqn, hacc] at hget0; injection hget0 with h; exact h.symm
+          subst hr
+          have hlt : q < accs.size := by
+            have := hacc
+            rcases Nat.lt_or_ge q accs.size with h | h
+            · exact h
+            · rw [Array.getElem?_eq_none h] at this; cases this
+          have hacc1 : (accs.set! q0.toNat (defaultI atol q0.toNat))[q]? = some (defaultI atol q) := by
+            rw [hqn]; exact getElem?_set!_self accs q _ hlt
+          obtain ⟨h1, h2, h3⟩ := ih _ _ accs' out' _ hok1 hacc1 h
+          have c2 : ¬ ((q : Int) ∈ qs ∧ (defaultI atol q).isIdentity atol = false) := by simp [hdef q]
+          rw [if_neg c2] at h3
+          have c1 : ((q : Int) ∈ q0 :: qs ∧ r0.isIdentity atol = false) := ⟨by simp [he], hid⟩
+          rw [if_pos c1]
+          refine ⟨h1, by simpa using h2, h3.1, ?_⟩
+          rw [h3.2, trace_cons_pos]
+          simp [Rot.toStmt_qubits, hr0q, he]
+        · have hqn : q0.toNat ≠ q := by omega
+          have hacc1 : (accs.set! q0.toNat (defaultI atol q0.toNat))[q]? = some acc := by
+            rw [getElem?_set!_ne accs _ _ _ hqn]; exact hacc
+          obtain ⟨h1, h2, h3⟩ := ih _ _ accs' out' _ hok1 hacc1 h
+          have : ((q : Int) ∈ q0 :: qs) ↔ ((q : Int) ∈ qs) := by
+            simp only [List.mem_cons]; constructor
+            · rintro (h | h); · exact absurd h.symm he
+              exact h
+            · exact Or.inr
+          have ht : trace (q : Int) (r0.toGStmt.toStmt :: out) = trace (q : Int) out := by
+            apply trace_cons_neg
+            simp only [Rot.toStmt_qubits, hr0q, List.mem_singleton]
+            exact fun h => he h.symm
+          rw [ht] at h3
+          refine ⟨h1, by simpa using h2, ?_⟩
+          simpa only [this] using h3
+
+/-! ### The per-qubit specification of the pass -/
+
+theorem rot?_isBSR (s : Stmt α) : s.isBSR = true ↔ ∃ r, s.rot? = some r := by
+  cases s with
+  | gate g nm => cases g <;> simp [Stmt.isBSR, Stmt.rot?]
+  | measure q b ax nm => simp [Stmt.isBSR, Stmt.rot?]
+  | reset q nm => simp [Stmt.isBSR, Stmt.rot?]
+  | comment c => simp [Stmt.isBSR, Stmt.rot?]
+
+theorem rot?_none_of_nonBSR (s : Stmt α) (h : s.isBSR = false) : s.rot? = none := by
+  cases hr : s.rot? with
+  | none => rfl
+  | some r => rw [(rot?_isBSR s).mpr ⟨r, hr⟩] at h; cases h
+
+theorem Rot.rot?_toStmt (r : Rot α) : (r.toGStmt.toStmt).rot? = some r := rfl
+
+/-- **The per-qubit specification.**  Walk the trace of qubit `q` with one accumulator:
+    a rotation is absorbed (`acc := composeRot rotation acc`); at a barrier (anything that is not a plain rotation)
+    the accumulator is emitted in front of the barrier and reset to `I(q)` unless it tests as identity (then it is
+    neither emitted nor reset); at the end the accumulator is emitted (renamed by `tryName` if anonymous) unless it
+    tests as identity. -/
+def specTrace (atol : α) (q : Nat) : Rot α → List (Stmt α) → List (Stmt α)
+  | acc, [] => if acc.isIdentity atol then [] else [(finalRot atol acc).toGStmt.toStmt]
+  | acc, s :: rest =>
+    match s.rot? with
+    | some a =>
+      match composeRot atol a acc with
+      | .ok r => specTrace atol q r rest
+      | .error _ => []
+    | none =>
+      if acc.isIdentity atol then s :: specTrace atol q acc rest
+      else acc.toGStmt.toStmt :: s :: specTrace atol q (defaultI atol q) rest
+
+theorem specTrace_nil (atol : α) (q : Nat) (acc : Rot α) :
+    specTrace atol q acc [] = if acc.isIdentity atol then [] else [(finalRot atol acc).toGStmt.toStmt] := by
+  simp only [specTrace]
+
+theorem specTrace_rot (atol : α) (q : Nat) (acc a r : Rot α) (s : Stmt α) (rest : List (Stmt α))
+    (hs : s.rot? = some a) (hc : composeRot atol a acc = .ok r) :
+    specTrace atol q acc (s :: rest) = specTrace atol q r rest := by
+  simp only [specTrace, hs, hc]
+
+theorem specTrace_barrier_id (atol : α) (q : Nat) (acc : Rot α) (s : Stmt α) (rest : List (Stmt α))
+    (hs : s.rot? = none) (hid : acc.isIdentity atol = true) :
+    specTrace atol q acc (s :: rest) = s :: specTrace atol q acc rest := by
+  simp only [specTrace, hs, hid, ↓reduceIte]
+
+theorem specTrace_barrier_emit (atol : α) (q : Nat) (acc : Rot α) (s : Stmt α) (rest : List (Stmt α))
+    (hs : s.rot? = none) (hid : acc.isIdentity atol = false) :
+    specTrace atol q acc (s :: rest) =
+      acc.toGStmt.toStmt :: s :: specTrace atol q (defaultI atol q) rest := by
+  simp only [specTrace, hs, hid, Bool.false_eq_true, ↓reduceIte]
+
+/-- **Loop invariant.** From any state, the rest of the run (loop + final flush) extends the trace of `q` by
+    the specification applied to the pending accumulator of `q` and the remaining trace of `q`. -/
+theorem mergeLoop_trace (atol : α) (hdef : DefaultIsIdentity atol) (q : Nat) (rest : List (Stmt α)) :
+    ∀ (accs : Array (Rot α)) (out : List (Stmt α)) (accs' : Array (Rot α)) (out' : List (Stmt α)) (acc : Rot α),
+      AccOK accs → accs[q]? = some acc → mergeLoop atol accs out rest = .inr (accs', out') →
+      trace (q : Int) (out'.reverse ++ mergeTail atol accs')
+        = trace (q : Int) out.reverse ++ specTrace atol q acc (trace (q : Int) rest) := by
+  induction rest with
+  | nil =>
+    intro accs out accs' out' acc hok hacc h
+    rw [mergeLoop_nil] at h
+    injection h with h; injection h with h1 h2
+    subst h1; subst h2
+    rw [trace_append, trace_tail atol q accs acc hok hacc]
+    simp [trace, specTrace_nil]
+  | cons s rest ih =>
+    intro accs out accs' out' acc hok hacc h
+    have hlt : q < accs.size := by
+      rcases Nat.lt_or_ge q accs.size with h | h
+      · exact h
+      · rw [Array.getElem?_eq_none h] at hacc; cases hacc
+    cases hb : s.isBSR with
+    | true =>
+      cases s with
+      | gate g nm =>
+        cases g with
+        | bsr q0 ax an ph =>
+          cases hq0 : accGet? accs q0 with
+          | none => rw [mergeLoop_bsr_key atol accs out rest q0 ax an ph nm hq0] at h; cases h
+          | some acc0 =>
+            obtain ⟨hq0nn, hget0⟩ := accGet?_some accs q0 acc0 hq0
+            cases hc : composeRot atol ⟨q0, ax, an, ph, nm⟩ acc0 with
+            | error e => rw [mergeLoop_bsr_err atol accs out rest q0 ax an ph nm acc0 e hq0 hc] at h; cases h
+            | ok r =>
+              rw [mergeLoop_bsr_ok atol accs out rest q0 ax an ph nm acc0 r hq0 hc] at h
+              have hrq : r.q = ((q0.toNat : Nat) : Int) := by
+                rw [(composeRot_q atol _ _ _ hc).2]; show q0 = _; omega
+              have hok1 := hok.set q0.toNat r hrq
+              by_cases he : q0 = (q : Int)
+              · have hqn : q0.toNat = q := by omega
+                have hacc0 : acc0 = acc := by
+                  rw [hqn, hacc] at hget0; injection hget0 with h; exact h.symm
+                subst hacc0
+                have hacc1 : (accs.set! q0.toNat r)[q]? = some r := by
+                  rw [hqn]; exact getElem?_set!_self accs q r hlt
+                rw [ih _ _ _ _ _ hok1 hacc1 h,
+                  trace_cons_pos _ _ _ (by simp [Stmt.qubits, Gate.operands, he]),
+                  specTrace_rot atol q acc0 _ r _ _ rfl hc]
+              · have hqn : q0.toNat ≠ q := by omega
+                have hacc1 : (accs.set! q0.toNat r)[q]? = some acc := by
+                  rw [getElem?_set!_ne accs _ _ _ hqn]; exact hacc
+                rw [ih _ _ _ _ _ hok1 hacc1 h,
+                  trace_cons_neg _ _ _ (by
+                    simp only [Stmt.qubits, Gate.operands, List.mem_singleton]; exact fun h => he h.symm)]
+        | matrix m ops => simp [Stmt.isBSR] at hb
+        | ctrl c g => simp [Stmt.isBSR] at hb
+      | measure q b ax nm => simp [Stmt.isBSR] at hb
+      | reset q nm => simp [Stmt.isBSR] at hb
+      | comment c => simp [Stmt.isBSR] at hb
+    | false =>
+      have hrn := rot?_none_of_nonBSR s hb
+      cases hf : flushOps atol accs out s.qubits with
+      | error o => rw [mergeLoop_nonBSR_err atol accs out rest s hb o hf] at h; cases h
+      | ok p =>
+        obtain ⟨accs1, out1⟩ := p
+        rw [mergeLoop_nonBSR_ok atol accs out rest s hb accs1 out1 hf] at h
+        obtain ⟨hok1, _, h3⟩ := flushOps_trace atol hdef q s.qubits accs out accs1 out1 acc hok hacc hf
+        by_cases hm : (q : Int) ∈ s.qubits
+        · rw [trace_cons_pos _ _ _ hm]
+          cases hid : acc.isIdentity atol with
+          | true =>
+            have c : ¬ ((q : Int) ∈ s.qubits ∧ acc.isIdentity atol = false) := by simp [hid]
+            rw [if_neg c] at h3
+            rw [ih _ _ _ _ _ hok1 h3.1 h, specTrace_barrier_id atol q acc s _ hrn hid,
+              List.reverse_cons, trace_append, trace_reverse, h3.2, ← trace_reverse,
+              trace_cons_pos _ _ _ hm]
+            simp [trace]
+          | false =>
+            rw [if_pos ⟨hm, hid⟩] at h3
+            rw [ih _ _ _ _ _ hok1 h3.1 h, specTrace_barrier_emit atol q acc s _ hrn hid,
+              List.reverse_cons, trace_append, trace_reverse, h3.2, List.reverse_cons, ← trace_reverse,
+              trace_cons_pos _ _ _ hm]
+            simp [trace]
+        · have c : ¬ ((q : Int) ∈ s.qubits ∧ acc.isIdentity atol = false) := by simp [hm]
+          rw [if_neg c] at h3
+          rw [trace_cons_neg _ _ _ hm, ih _ _ _ _ _ hok1 h3.1 h,
+            List.reverse_cons, trace_append, trace_reverse, h3.2, ← trace_reverse,
+            trace_cons_neg _ _ _ hm]
+          simp [trace]
+
+/-- `mergeLoop` only stops early with an exception -/
+theorem mergeLoop_inl_some (atol : α) (rest : List (Stmt α)) :
+    ∀ (accs : Array (Rot α)) (out st : List (Stmt α)) (e : Option Err),
+      mergeLoop atol accs out rest = .inl (st, e) → e ≠ none := by
+  induction rest with
+  | nil => intro accs out st e h; rw [mergeLoop_nil] at h; cases h
+  | cons s rest ih =>
+    intro accs out st e h
+    cases hb : s.isBSR with
+    | true =>
+      cases s with
+      | gate g nm =>
+        cases g with
+        | bsr q0 ax an ph =>
+          cases hq0 : accGet? accs q0 with
+          | none =>
+            rw [mergeLoop_bsr_key atol accs out rest q0 ax an ph nm hq0] at h
+            injection h with h; injection h with _ h; rw [← h]; simp
+          | some acc0 =>
+            cases hc : composeRot atol ⟨q0, ax, an, ph, nm⟩ acc0 with
+            | error e' =>
+              rw [mergeLoop_bsr_err atol accs out rest q0 ax an ph nm acc0 e' hq0 hc] at h
+              injection h with h; injection h with _ h; rw [← h]; simp
+            | ok r =>
+              rw [mergeLoop_bsr_ok atol accs out rest q0 ax an ph nm acc0 r hq0 hc] at h
+              exact ih _ _ _ _ h
+        | matrix m ops => simp [Stmt.isBSR] at hb
+        | ctrl c g => simp [Stmt.isBSR] at hb
+      | measure q b ax nm => simp [Stmt.isBSR] at hb
+      | reset q nm => simp [Stmt.isBSR] at hb
+      | comment c => simp [Stmt.isBSR] at hb
+    | false =>
+      cases hf : flushOps atol accs out s.qubits with
+      | error o =>
+        rw [mergeLoop_nonBSR_err atol accs out rest s hb o hf] at h
+        injection h with h; injection h with _ h; rw [← h]; simp
+      | ok p =>
+        obtain ⟨accs1, out1⟩ := p
+        rw [mergeLoop_nonBSR_ok atol accs out rest s hb accs1 out1 hf] at h
+        exact ih _ _ _ _ h
+
+/-- **merge_per_qubit_order.**  If the pass does not raise then, for every qubit `q` of the register, the trace of
+    `q` in the output is the specification `specTrace` applied to the trace of `q` in the input, starting from the
+    accumulator `I(q)`.  Hence: same barrier statements in the same order; between two consecutive barriers at most
+    one rotation on `q`, none if the accumulator tested as identity, and that rotation is the left fold
+    `acc ↦ composeRot statement acc` over the rotations of that segment, in order; no rotation crosses a barrier
+    that touches its qubit (see `specTrace_segment`, `specTrace_filter` below). -/
+theorem merge_per_qubit_order (atol : α) (hdef : DefaultIsIdentity atol) (c : Circuit α)
+    (hne : (merge atol c).2 = none) (q : Nat) (hq : q < c.nQubits) :
+    trace (q : Int) (merge atol c).1.stmts = specTrace atol q (defaultI atol q) (trace (q : Int) c.stmts) := by
+  obtain ⟨hsz, hok⟩ := initAccs_ok atol c.nQubits
+  have hacc : (Array.ofFn (n := c.nQubits) fun i => defaultI atol i.val)[q]? = some (defaultI atol q) := by
+    rw [Array.getElem?_ofFn]; simp [hq]
+  rw [merge_eq] at hne ⊢
+  split at hne
+  · rename_i st e heq
+    exact absurd hne (mergeLoop_inl_some atol _ _ _ _ _ heq)
+  · rename_i accs out heq
+    simpa [trace] using mergeLoop_trace atol hdef q c.stmts _ [] accs out _ hok hacc heq
+
+/-- the barrier statements on `q` are the same, in the same order (whether or not the pass raises) -/
+theorem merge_trace_barriers (atol : α) (c : Circuit α) (q : Int) :
+    (trace q (merge atol c).1.stmts).filter notBSR = (trace q c.stmts).filter notBSR := by
+  simp only [trace, List.filter_filter]
+  have h := congrArg (List.filter (Stmt.touches q)) (merge_filter atol c)
+  simp only [List.filter_filter] at h
+  simpa [Bool.and_comm] using h
+
+/-! ### Segments: the emitted rotation is the fold of `composeRot` over the run of rotations -/
+
+/-- `acc_{i+1} = composeRot statement_i acc_i` over a list of rotation statements -/
+def foldRot (atol : α) : Rot α → List (Stmt α) → Except Err (Rot α)
+  | acc, [] => .ok acc
+  | acc, s :: rest =>
+    match s.rot? with
+    | some a =>
+      match composeRot atol a acc with
+      | .ok r => foldRot atol r rest
+      | .error e => .error e
+    | none => foldRot atol acc rest
+
+/-- a maximal run `seg` of rotations in the trace is replaced by its fold -/
+theorem specTrace_append_segment (atol : α) (q : Nat) (seg : List (Stmt α))
+    (hseg : ∀ s ∈ seg, s.isBSR = true) :
+    ∀ (acc r : Rot α) (tl : List (Stmt α)), foldRot atol acc seg = .ok r →
+      specTrace atol q acc (seg ++ tl) = specTrace atol q r tl := by
+  induction seg with
+  | nil => intro acc r tl h; simp only [foldRot] at h; injection h with h; rw [h]; rfl
+  | cons s seg ih =>
+    intro acc r tl h
+    obtain ⟨a, ha⟩ := (rot?_isBSR s).mp (hseg s List.mem_cons_self)
+    simp only [foldRot, ha] at h
+    cases hc : composeRot atol a acc with
+    | error e => rw [hc] at h; cases h
+    | ok r1 =>
+      rw [hc] at h
+      rw [List.cons_append, specTrace_rot atol q acc a r1 s _ ha hc]
+      exact ih (fun s' hs' => hseg s' (List.mem_cons_of_mem _ hs')) r1 r tl h
+
+/-- **Segment form.** A run of rotations followed by a barrier `b`: at most one rotation is emitted, in front of
+    `b`; it is the fold of the run; nothing is emitted (and the accumulator kept) if the fold tests as identity. -/
+theorem specTrace_segment (atol : α) (q : Nat) (seg : List (Stmt α)) (hseg : ∀ s ∈ seg, s.isBSR = true)
+    (acc r : Rot α) (hf : foldRot atol acc seg = .ok r) (b : Stmt α) (hb : b.isBSR = false)
+    (rest : List (Stmt α)) :
+    specTrace atol q acc (seg ++ b :: rest) =
+      if r.isIdentity atol then b :: specTrace atol q r rest
+      else r.toGStmt.toStmt :: b :: specTrace atol q (defaultI atol q) rest := by
+  rw [specTrace_append_segment atol q seg hseg acc r _ hf]
+  cases hid : r.isIdentity atol with
+  | true => rw [specTrace_barrier_id atol q r b rest (rot?_none_of_nonBSR b hb) hid]; rfl
+  | false => rw [specTrace_barrier_emit atol q r b rest (rot?_none_of_nonBSR b hb) hid]; rfl
+
+/-- the last run (no barrier after it): emitted at the very end, through `tryName` if anonymous -/
+theorem specTrace_last_segment (atol : α) (q : Nat) (seg : List (Stmt α)) (hseg : ∀ s ∈ seg, s.isBSR = true)
+    (acc r : Rot α) (hf : foldRot atol acc seg = .ok r) :
+    specTrace atol q acc seg =
+      if r.isIdentity atol then [] else [(finalRot atol r).toGStmt.toStmt] := by
+  have := specTrace_append_segment atol q seg hseg acc r [] hf
+  rw [List.append_nil] at this
+  rw [this, specTrace_nil]
+
+/-! ### Normal form (property C14) -/
+
+/-- no two rotations are adjacent -/
+def noAdjBSR : List (Stmt α) → Bool
+  | [] => true
+  | [_] => true
+  | x :: y :: l => !(x.isBSR && y.isBSR) && noAdjBSR (y :: l)
+
+theorem noAdjBSR_cons_nonBSR (s : Stmt α) (l : List (Stmt α)) (h : s.isBSR = false) :
+    noAdjBSR (s :: l) = noAdjBSR l := by
+  cases l with
+  | nil => rfl
+  | cons y l => simp [noAdjBSR, h]
+
+theorem specTrace_noAdj (atol : α) (q : Nat) (tr : List (Stmt α)) :
+    ∀ acc : Rot α, noAdjBSR (specTrace atol q acc tr) = true := by
+  induction tr with
+  | nil => intro acc; rw [specTrace_nil]; split <;> rfl
+  | cons s tr ih =>
+    intro acc
+    cases hr : s.rot? with
+    | some a =>
+      cases hc : composeRot atol a acc with
+      | error e => simp only [specTrace, hr, hc]; rfl
+      | ok r => rw [specTrace_rot atol q acc a r s tr hr hc]; exact ih r
+    | none =>
+      have hb : s.isBSR = false := by
+        cases h : s.isBSR with
+        | false => rfl
+        | true => obtain ⟨r, h'⟩ := (rot?_isBSR s).mp h; rw [hr] at h'; cases h'
+      cases hid : acc.isIdentity atol with
+      | true => rw [specTrace_barrier_id atol q acc s tr hr hid, noAdjBSR_cons_nonBSR _ _ hb]; exact ih acc
+      | false =>
+        rw [specTrace_barrier_emit atol q acc s tr hr hid]
+        simp only [noAdjBSR, hb, Bool.and_false, Bool.not_false, Bool.true_and]
+        rw [noAdjBSR_cons_nonBSR _ _ hb]; exact ih _
+
+/-- `r` is the result of some call of `composeRot` -/
+def FromCompose (atol : α) (r : Rot α) : Prop := ∃ a b : Rot α, composeRot atol a b = .ok r
+
+/-- every accumulator tests as identity (e.g. the initial `I(q)`) or was produced by `composeRot` -/
+def AccSrc (atol : α) (accs : Array (Rot α)) : Prop :=
+  ∀ (i : Nat) (r : Rot α), accs[i]? = some r → r.isIdentity atol = true ∨ FromCompose atol r
+
+theorem AccSrc.set {atol : α} {accs : Array (Rot α)} (h : AccSrc atol accs) (i : Nat) (r : Rot α)
+    (hr : r.isIdentity atol = true ∨ FromCompose atol r) : AccSrc atol (accs.set! i r) := by
+  intro j r' hj
+  simp only [Array.set!_eq_setIfInBounds, Array.getElem?_setIfInBounds] at hj
+  split at hj
+  · split at hj
+    · injection hj with hj; rw [← hj]; exact hr
+    · cases hj
+  · exact h j r' hj
+
+/-- what a rotation statement of the output looks like: a flushed, or finally flushed (and possibly renamed),
+    accumulator that did not test as identity and was produced by `composeRot` -/
+def Emitted (atol : α) (s : Stmt α) : Prop :=
+  ∃ r : Rot α, r.isIdentity atol = false ∧ FromCompose atol r ∧
+    (s = r.toGStmt.toStmt ∨ s = (finalRot atol r).toGStmt.toStmt)
+
+theorem flushOps_emitted (atol : α) (hdef : DefaultIsIdentity atol) (qs : List Int) :
+    ∀ (accs : Array (Rot α)) (out : List (Stmt α)) (accs' : Array (Rot α)) (out' : List (Stmt α)),
+      AccSrc atol accs → (∀ s ∈ out, s.isBSR = true → Emitted atol s) →
+      flushOps atol accs out qs = .ok (accs', out') →
+      AccSrc atol accs' ∧ ∀ s ∈ out', s.isBSR = true → Emitted atol s := by
+  induction qs with
+  | nil =>
+    intro accs out accs' out' ha ho h
+    rw [flushOps_nil] at h; injection h with h; injection h with h1 h2; rw [← h1, ← h2]; exact ⟨ha, ho⟩
+  | cons q0 qs ih =>
+    intro accs out accs' out' ha ho h
+    cases hq0 : accGet? accs q0 with
+    | none => rw [flushOps_cons_key atol accs out q0 qs hq0] at h; cases h
+    | some r0 =>
+      cases hid : r0.isIdentity atol with
+      | true => rw [flushOps_cons_id atol accs out q0 qs r0 hq0 hid] at h; exact ih _ _ _ _ ha ho h
+      | false =>
+        rw [flushOps_cons_emit atol accs out q0 qs r0 hq0 hid] at h
+        refine ih _ _ _ _ (ha.set _ _ (Or.inl (hdef _))) ?_ h
+        intro s hs hb
+        rcases List.mem_cons.mp hs with rfl | hs
+        · rcases ha _ _ (accGet?_some accs q0 r0 hq0).2 with h' | h'
+          · rw [hid] at h'; cases h'
+          · exact ⟨r0, hid, h', Or.inl rfl⟩
+        · exact ho s hs hb
+
+theorem mergeLoop_emitted (atol : α) (hdef : DefaultIsIdentity atol) (rest : List (Stmt α)) :
+    ∀ (accs : Array (Rot α)) (out : List (Stmt α)) (accs' : Array (Rot α)) (out' : List (Stmt α)),
+      AccSrc atol accs → (∀ s ∈ out, s.isBSR = true → Emitted atol s) →
+      mergeLoop atol accs out rest = .inr (accs', out') →
+      AccSrc atol accs' ∧ ∀ s ∈ out', s.isBSR = true → Emitted atol s := by
+  induction rest with
+  | nil =>
+    intro accs out accs' out' ha ho h
+    rw [mergeLoop_nil] at h; injection h with h; injection h with h1 h2; rw [← h1, ← h2]; exact ⟨ha, ho⟩
+  | cons s rest ih =>
+    intro accs out accs' out' ha ho h
+    cases hb : s.isBSR with
+    | true =>
+      cases s with
+      | gate g nm =>
+        cases g with
+        | bsr q0 ax an ph =>
+          cases hq0 : accGet? accs q0 with
+          | none => rw [mergeLoop_bsr_key atol accs out rest q0 ax an ph nm hq0] at h; cases h
+          | some acc0 =>
+            cases hc : composeRot atol ⟨q0, ax, an, ph, nm⟩ acc0 with
+            | error e => rw [mergeLoop_bsr_err atol accs out rest q0 ax an ph nm acc0 e hq0 hc] at h; cases h
+            | ok r =>
+              rw [mergeLoop_bsr_ok atol accs out rest q0 ax an ph nm acc0 r hq0 hc] at h
+              exact ih _ _ _ _ (ha.set _ _ (Or.inr ⟨_, _, hc⟩)) ho h
+        | matrix m ops => simp [Stmt.isBSR] at hb
+        | ctrl c g => simp [Stmt.isBSR] at hb
+      | measure q b ax nm => simp [Stmt.isBSR] at hb
+      | reset q nm => simp [Stmt.isBSR] at hb
+      | comment c => simp [Stmt.isBSR] at hb
+    | false =>
+      cases hf : flushOps atol accs out s.qubits with
+      | error o => rw [mergeLoop_nonBSR_err atol accs out rest s hb o hf] at h; cases h
+      | ok p =>
+        obtain ⟨accs1, out1⟩ := p
+        rw [mergeLoop_nonBSR_ok atol accs out rest s hb accs1 out1 hf] at h
+        obtain ⟨ha1, ho1⟩ := flushOps_emitted atol hdef s.qubits accs out accs1 out1 ha ho hf
+        refine ih _ _ _ _ ha1 ?_ h
+        intro s' hs' hb'
+        rcases List.mem_cons.mp hs' with rfl | hs'
+        · rw [hb] at hb'; cases hb'
+        · exact ho1 s' hs' hb'
+
+/-- **Every rotation in the output is an emitted accumulator that did not test as identity** (all input rotations
+    have been absorbed), and that accumulator is the result of a `composeRot` call. -/
+theorem merge_emitted_nonidentity (atol : α) (hdef : DefaultIsIdentity atol) (c : Circuit α)
+    (hne : (merge atol c).2 = none)
+    (s : Stmt α) (hs : s ∈ (merge atol c).1.stmts) (hb : s.isBSR = true) : Emitted atol s := by
+  have hinit : AccSrc atol (Array.ofFn (n := c.nQubits) fun i => defaultI atol i.val) := by
+    intro i r hi
+    rw [Array.getElem?_ofFn] at hi
+    split at hi
+    · injection hi with hi; rw [← hi]; exact Or.inl (hdef i)
+    · cases hi
+  rw [merge_eq] at hne hs
+  split at hne
+  · rename_i st e heq
+    exact absurd hne (mergeLoop_inl_some atol _ _ _ _ _ heq)
+  · rename_i accs out heq
+    rw [heq] at hs
+    simp only [List.mem_append, List.mem_reverse] at hs
+    obtain ⟨ha, ho⟩ := mergeLoop_emitted atol hdef c.stmts _ [] accs out hinit (by simp) heq
+    rcases hs with hs | hs
+    · exact ho s hs hb
+    · rw [mergeTail_eq, List.mem_filterMap] at hs
+      obtain ⟨r, hmem, hr⟩ := hs
+      unfold tailF at hr
+      split at hr
+      · cases hr
+      · rename_i hid
+        have hid : r.isIdentity atol = false := by simpa using hid
+        injection hr with hr
+        obtain ⟨i, hi⟩ := List.getElem?_of_mem hmem
+        rcases ha i r (by simpa using hi) with h' | h'
+        · rw [hid] at h'; cases h'
+        · exact ⟨r, hid, h', Or.inr hr.symm⟩
+
+/-- renaming a non-identity accumulator produced by `composeRot` does not make it test as identity.
+    (At `ℝ` this holds for `0 < atol ≤ π/4`: such an accumulator has `|angle| ≥ 2·atol`, so the only default gate
+    that tests as identity, `I`, is never within `atol` of it.  For arbitrary rotations it fails on the boundary
+    `|angle| = atol`, because `tryName` compares with `≤` and `is_identity` with `<`.) -/
+def RenameKeepsNonIdentity (atol : α) : Prop :=
+  ∀ a b r : Rot α, composeRot atol a b = .ok r → r.isIdentity atol = false →
+    (finalRot atol r).isIdentity atol = false
+
+/-- **merge_normal_form (C14).** If the pass does not raise: for every qubit of the register no two rotations are
+    adjacent in its trace, and no rotation in the output tests as identity. -/
+theorem merge_normal_form (atol : α) (hdef : DefaultIsIdentity atol) (hname : RenameKeepsNonIdentity atol)
+    (c : Circuit α) (hne : (merge atol c).2 = none) :
+    (∀ q : Nat, q < c.nQubits → noAdjBSR (trace (q : Int) (merge atol c).1.stmts) = true) ∧
+    (∀ s ∈ (merge atol c).1.stmts, ∀ r, s.rot? = some r → r.isIdentity atol = false) := by
+  constructor
+  · intro q hq
+    rw [merge_per_qubit_order atol hdef c hne q hq]
+    exact specTrace_noAdj atol q _ _
+  · intro s hs r hr
+    obtain ⟨r0, hid, ⟨a, b, hab⟩, h | h⟩ :=
+      merge_emitted_nonidentity atol hdef c hne s hs ((rot?_isBSR s).mpr ⟨r, hr⟩)
+    · rw [h, Rot.rot?_toStmt] at hr; injection hr with hr; rw [← hr]; exact hid
+    · rw [h, Rot.rot?_toStmt] at hr; injection hr with hr; rw [← hr]; exact hname a b r0 hab hid
+
 /-! ### Non-vacuity: a toy scalar type on which everything is computable and `ComposeTotal` holds -/
 namespace Toy
 
@@ -445,10 +1106,24 @@ local instance : Scalar Int where
   decEqB x y := x == y
   default := 0
 
-theorem composeTotal : ComposeTotal (1 : Int) := by
-  intro a b h
-  refine ⟨identityRot a.q, ?_⟩
+theorem composeRot_toy (a b : Rot Int) (h : a.q = b.q) : composeRot (1 : Int) a b = .ok (identityRot a.q) := by
   simp [composeRot, h, absS, Trig.sin, Trig.abs]
+
+theorem composeTotal : ComposeTotal (1 : Int) := fun a b h => ⟨_, composeRot_toy a b h⟩
+
+theorem defaultIsIdentity : DefaultIsIdentity (1 : Int) := by
+  intro q
+  have h1 : Scalar.decEqB (Vec3.maxAbs ((one : Int), zero, zero)) zero = false := by decide
+  have h2 : normalizeAngle (1 : Int) zero = 0 := by decide
+  simp [defaultI, named, callGate, Gen.gateTable, bindArgs, GExpr.eval, envQubit, Env.find?, mkBSR, mkAxis,
+    bind, Except.bind, pure, Except.pure, h1, h2, Rot.isIdentity, absS, Trig.abs]
+
+theorem renameKeeps : RenameKeepsNonIdentity (1 : Int) := by
+  intro a b r h hid
+  rw [composeRot_toy a b (composeRot_q _ _ _ _ h).1] at h
+  injection h with h
+  rw [← h] at hid
+  cases hid
 
 def rot (q : Int) (an : Int) : Stmt Int := .gate (.bsr q (1, 0, 0) an 0) none
 
@@ -464,6 +1139,15 @@ example := merge_barriers (1 : Int) exCirc exCirc_inRange composeTotal
 example := merge_error_only_from_compose (1 : Int) exCirc exCirc_inRange
 example (s : Stmt Int) (hs : s ∈ (merge (1 : Int) exCirc).1.stmts) := merge_emits_only_bsr (1 : Int) exCirc s hs
 
+theorem exCirc_no_error : (merge (1 : Int) exCirc).2 = none :=
+  merge_no_error (1 : Int) exCirc exCirc_inRange composeTotal
+
+example := merge_per_qubit_order (1 : Int) defaultIsIdentity exCirc exCirc_no_error 0 (by decide)
+example := merge_per_qubit_order (1 : Int) defaultIsIdentity exCirc exCirc_no_error 1 (by decide)
+example := merge_normal_form (1 : Int) defaultIsIdentity renameKeeps exCirc exCirc_no_error
+example (s : Stmt Int) (hs : s ∈ (merge (1 : Int) exCirc).1.stmts) (hb : s.isBSR = true) :=
+  merge_emitted_nonidentity (1 : Int) defaultIsIdentity exCirc exCirc_no_error s hs hb
+
 end Toy
 
 /-- the unconditional part also instantiates on the executable `Float` model -/
@@ -474,5 +1158,11 @@ example (c : Circuit Float) : (merge Gen.atol c).1.stmts.filter notBSR = c.stmts
 #print axioms merge_filter
 #print axioms merge_error_only_from_compose
 #print axioms merge_emits_only_bsr
+#print axioms merge_per_qubit_order
+#print axioms merge_trace_barriers
+#print axioms specTrace_segment
+#print axioms specTrace_last_segment
+#print axioms merge_emitted_nonidentity
+#print axioms merge_normal_form
 
 end OSq
